@@ -1,4 +1,6 @@
 import Pymeeus.Refine.UtcReadback
+import Pymeeus.Refine.LeapAny
+import Pymeeus.Refine.LocalPath
 /-
 C10 — UTC <-> TT offset follows the IERS leap-second history and inverts.
 
@@ -185,6 +187,71 @@ theorem deltaT_joints (Y : Int) (h : Y ∈ dtJoints) : |tt2ut Y 1 - tt2ut (Y - 1
   simp only [jointOk, Bool.and_eq_true, decide_eq_true_eq] at this
   rw [abs_lt]
   exact ⟨this.2, this.1⟩
+
+
+/-! ### Outside the documented argument range -/
+
+/-- What `Epoch.leap_seconds(year, month)` returns for ANY numeric arguments (ints or floats, any month value): with
+    `x = year + month/12` and `l = year + 1/4` (month ≤ 6) or `year + 3/4`: 0 up to x = 1972.5, 27 beyond x = 2017, otherwise
+    the number of IERS dates whose instant (January = y, July = y + 1/2) is strictly below `l` — except that it returns the
+    LAST table value 27 when `l ≤ 1972.5` (the index −1 wraps) and raises IndexError when `l > 2017`; both only happen for
+    months outside 1..12 (e.g. `leap_seconds(1971, 19) = 27`, `leap_seconds(2017, -1)` raises). -/
+theorem leap_seconds_any_arguments (year month : ℚ) :
+    leap_seconds_num year month =
+      if year + month / 12 ≤ 1972.5 then .ok 0
+      else if 2017 < year + month / 12 then .ok 27
+      else if (if month ≤ 6 then year + 1 / 4 else year + 3 / 4) ≤ 1972.5 then .ok 27
+      else if 2017 < (if month ≤ 6 then year + 1 / 4 else year + 3 / 4) then .error .other
+      else .ok (iersBelow (if month ≤ 6 then year + 1 / 4 else year + 3 / 4)) :=
+  leap_seconds_num_eq year month
+
+/-- the integer-argument model used by the theorems above is this function at integer values, for every month -/
+theorem leap_seconds_int_arguments (y m : Int) : leap_seconds y m = leap_seconds_num (y : ℚ) (m : ℚ) :=
+  leap_seconds_eq_num y m
+
+/-- the two out-of-range behaviours, concretely -/
+theorem leap_seconds_out_of_range_examples :
+    leap_seconds 1971 19 = .ok 27 ∧ leap_seconds 2017 (-1) = .error .other ∧ leap_seconds_num 1972.5 1 = .ok 1 := by
+  decide +kernel
+
+/-! ### `local=` with `Epoch.utc2local()` as a parameter `off` (the wall clock itself is not modelled) -/
+
+/-- without `local`, and with `local=False`, the constructor is exactly the one the theorems above are about -/
+theorem local_absent_or_false_constructor (y m : Int) (d h mi s off : ℚ) (utc : Option Bool) (lsec : Option ℚ) :
+    epoch_set_local y m d h mi s utc lsec none off = epoch_set_kw y m d h mi s utc lsec ∧
+    epoch_set_local y m d h mi s utc lsec (some false) off = epoch_set_kw y m d h mi s utc lsec :=
+  epoch_set_local_absent y m d h mi s off utc lsec
+
+/-- `local=True` alone is `utc=True` plus the zone offset: the epoch is later by `off` seconds (sign as coded) -/
+theorem local_constructor_is_utc_plus_offset (y m : Int) (d h mi s off : ℚ) :
+    epoch_set_local y m d h mi s none none (some true) off =
+      (match epoch_set_kw y m d h mi s (some true) none with
+       | .error e => .error e
+       | .ok j => .ok (j + off / 86400)) :=
+  epoch_set_local_true y m d h mi s off
+
+/-- with offset 0 the local path IS the utc path, in both directions -/
+theorem local_zero_offset_is_utc (y m : Int) (d h mi s j : ℚ) :
+    epoch_set_local y m d h mi s none none (some true) 0 = epoch_set_kw y m d h mi s (some true) none ∧
+    get_date_local j none none (some true) 0 = get_date_kw j (some true) none := by
+  refine ⟨?_, get_date_local_zero j true⟩
+  rw [epoch_set_local_true]
+  cases epoch_set_kw y m d h mi s (some true) none with
+  | error e => rfl
+  | ok v => simp
+
+/-- without `local` the read-back is the one the theorems above are about -/
+theorem local_absent_get_date (j off : ℚ) (utc : Option Bool) (lsec : Option ℚ) :
+    get_date_local j utc lsec none off = get_date_kw j utc lsec :=
+  get_date_local_none j off utc lsec
+
+/-- `get_date(local=False)` is NOT `get_date()`: the code tests `"local" in kwargs`, so `local=False` converts TT to UTC
+    like `local=True` (J2000.0 noon reads back 64.184 s earlier).  The constructor honours `local=False`. -/
+theorem get_date_local_false_counterexample :
+    get_date_local 2451545 none none (some false) 0 = get_date_kw 2451545 (some true) none ∧
+    get_date_local 2451545 none none (some false) 0 ≠ get_date_local 2451545 none none none 0 := by
+  refine ⟨get_date_local_zero _ false, ?_⟩
+  decide +kernel
 
 -- Non-vacuity: the hypotheses are met by concrete inputs.
 example : epoch_set_kw 2016 12 31 23 59 59 none none = .ok (compute_jde 2016 12 (31 + (23 / 24 + 59 / 1440 + 59 / 86400)) + 0) := by
